@@ -6,7 +6,7 @@
     PublisherConfig, every answer script of the wrapped publisher, every sequence of calls over a
     heap of (possibly re-published) objects, every emit/Ack/Nack/Close sequence, every sequence of
     handler outcomes. *)
-From WM Require Import Base.Prelude Message.Model Decor.Model Decor.Monitor Decor.Heap Decor.Proofs Decor.SubProofs Decor.SubAccept Decor.HeapProofs Decor.HeapRefine Decor.HeapCount.
+From WM Require Import Base.Prelude Message.Model Handler.RouterHandle Decor.RouterMetrics Decor.Model Decor.Monitor Decor.Heap Decor.Proofs Decor.SubProofs Decor.SubAccept Decor.HeapProofs Decor.HeapRefine Decor.HeapCount.
 
 (** ** publisher decorators are transparent *)
 
@@ -312,6 +312,28 @@ Theorem C20_subscribe_model_accepted : forall stk heap ops crets tab,
   sub_monitor stk heap ops (sseen_of_run stk heap ops crets tab) = true.
 Proof. exact sub_monitor_model. Qed.
 
+(** ** inside a Router (composition with C02's [handle]) *)
+
+(** the handler's outputs hit a wrapped publisher that PANICS: the Router nacks the consumed message
+    (C02), the subscriber counter says nacked, the publish metric records exactly one failed call
+    (the repaired decorator), the handler metric says success (the handler returned without error) *)
+Theorem C20_router_publisher_panics : forall h s p n,
+  let m := RMsg HOk (S n) PubPanic in
+  st (fst (rm_handle m)) = Nacked
+  /\ rm_sobs h s m = [(h, s, false)]
+  /\ rm_pobs h p m = [(h, p, false)]
+  /\ run_mw true 1 [(h, rm_out m)] = [(h, true)].
+Proof. exact router_publisher_panics. Qed.
+(** every message: acked label iff C02's [handled_ok]; one publish observation iff the handler
+    returned a non-empty output without error, successful iff the publisher accepted *)
+Theorem C20_router_metrics : forall h s p m,
+  rm_sobs h s m = [(h, s, handled_ok PubReal (rm_pub m) (rm_chain m))]
+  /\ rm_pobs h p m = match rm_out m, rm_nouts m with
+                     | HOk, S _ => [(h, p, match rm_pub m with PubAccept => true | _ => false end)]
+                     | _, _ => []
+                     end.
+Proof. exact router_metrics_spec. Qed.
+
 (** ** handler middleware *)
 
 (** (repaired code) applied once: every invocation counted exactly once; success="true" exactly
@@ -375,6 +397,8 @@ Print Assumptions C20_subscriber_close_once.
 Print Assumptions C20_received_counted_once.
 Print Assumptions C20_received_table_counts.
 Print Assumptions C20_subscribe_model_accepted.
+Print Assumptions C20_router_publisher_panics.
+Print Assumptions C20_router_metrics.
 Print Assumptions C20_handler_counted_once.
 Print Assumptions C20_handler_acceptor_sound.
 Print Assumptions C20_handler_layers.
